@@ -105,17 +105,56 @@ func (b *backend) setCompactRecord(ctx context.Context, revision uint64) error {
 }
 
 func (b *backend) getCompactBorders() [][]byte {
+	withSlash := func(key string) string {
+		if !strings.HasSuffix(key, "/") {
+			key = key + "/"
+		}
+		return key
+	}
+	prefix := withSlash(b.config.Prefix)
+
+	// normalise the skipped key prefixes, so that the sorted borders below, taken pairwise, are exactly
+	// the prefix range minus the skipped ranges: keep only the outermost ones inside the prefix range
+	var skipped []string
+	for _, key := range b.config.SkippedPrefixes {
+		key = withSlash(key)
+		if strings.HasPrefix(prefix, key) {
+			// the whole prefix range is skipped
+			return nil
+		}
+		if !strings.HasPrefix(key, prefix) {
+			// outside of the prefix range: nothing to exclude
+			continue
+		}
+		covered := false
+		for _, kept := range skipped {
+			if strings.HasPrefix(key, kept) {
+				// duplicated, or nested in a skipped prefix
+				covered = true
+				break
+			}
+		}
+		if covered {
+			continue
+		}
+		// drop the skipped prefixes nested in this one
+		outer := skipped[:0]
+		for _, kept := range skipped {
+			if !strings.HasPrefix(kept, key) {
+				outer = append(outer, kept)
+			}
+		}
+		skipped = append(outer, key)
+	}
+
 	// exclude skipped key prefix
 	var keyPrefixes []string
-	keyPrefixes = append(keyPrefixes, b.config.Prefix)
-	keyPrefixes = append(keyPrefixes, b.config.SkippedPrefixes...)
+	keyPrefixes = append(keyPrefixes, prefix)
+	keyPrefixes = append(keyPrefixes, skipped...)
 
 	// construct compact borders
 	var compactBorders [][]byte
 	for _, key := range keyPrefixes {
-		if !strings.HasSuffix(key, "/") {
-			key = key + "/"
-		}
 		compactBorders = append(compactBorders, b.coder.EncodeObjectKey([]byte(key), 0))
 		compactBorders = append(compactBorders, b.coder.EncodeObjectKey(PrefixEnd([]byte(key)), 0))
 	}
